@@ -53,9 +53,14 @@ def family():
         if q and "/mm/" not in label and "/fb/" not in label and "/bf/" not in label:
             continue
         yield label, prog, dict(kind="single", horizon=8)
-    if not q:
-        for label, prog, meta in F.fam_cond_aux_two():
+    for label, prog, meta in F.fam_cond_aux_two():
+        if not q or ("dx0-dy0" in label and label.split("/")[1] in ("repeat1-never", "repeat1-repeat1")):
             yield label, prog, dict(kind="env")
+    for label, prog, meta in F.fam_markers_guarded():
+        yield label, prog, dict(kind="markers-deep")
+    for label, prog, meta in F.fam_clones_static_and_reared():
+        yield label, prog, dict(kind="clones")
+    if not q:
         for label, prog, meta in F.fam_clocks_deep():
             yield label, prog, dict(kind="single", horizon=40)
         for label, prog, meta in F.fam_markers_deep():
